@@ -468,3 +468,5 @@ def check(ctx, rep):
     rep.floor('FWD', 'monoisotopic forwarding sites in the resolvers', n, 25)
     from . import C03
     C03.multiplier_parity(ctx, rep, 'C10c')
+    from .common import memo_rule
+    memo_rule(ctx, rep, 'C10g', ('peptacular.mods.mod_db', 'peptacular.mass_calc', 'peptacular.chem.chem_calc', 'peptacular.glycan'))
